@@ -9,6 +9,7 @@ import (
 	"runtime"
 	"runtime/debug"
 	"runtime/metrics"
+	"strconv"
 	"strings"
 	"syscall"
 	"unsafe"
@@ -50,13 +51,79 @@ type Rec struct {
 	End  map[string]interface{} `json:"end,omitempty"`
 }
 
-type journal struct{ f *os.File }
+type journal struct{ fd uintptr }
 
+// put writes one record. Operation records (B, b, E) are encoded by hand: encoding/json and fmt recycle
+// scratch objects through pools shared by all tasks, which in harness mode (sync events ignored) the race
+// detector would report as races inside the standard library.
+//
 //go:norace
 func (j *journal) put(r *Rec) {
-	b, _ := json.Marshal(r)
-	b = append(b, '\n')
-	j.f.Write(b)
+	var b []byte
+	switch r.K {
+	case "B", "b", "E":
+		b = make([]byte, 0, 256)
+		b = append(b, `{"k":"`...)
+		b = append(b, r.K...)
+		b = append(b, '"')
+		num := func(k string, v int64) {
+			if v != 0 {
+				b = append(b, ',', '"')
+				b = append(b, k...)
+				b = append(b, '"', ':')
+				b = strconv.AppendInt(b, v, 10)
+			}
+		}
+		str := func(k, v string) {
+			if v != "" {
+				b = append(b, ',', '"')
+				b = append(b, k...)
+				b = append(b, '"', ':')
+				b = appendJSONString(b, v)
+			}
+		}
+		num("slot", int64(r.Slot))
+		num("task", int64(r.Task))
+		if r.Op != 0 {
+			b = append(b, `,"op":`...)
+			b = strconv.AppendUint(b, r.Op, 10)
+		}
+		num("step", r.Step)
+		str("cls", r.Cls)
+		num("n", int64(r.N))
+		str("d", r.D)
+		str("err", r.Err)
+		num("steps", r.Steps)
+		if r.Alloc != 0 {
+			b = append(b, `,"alloc":`...)
+			b = strconv.AppendUint(b, r.Alloc, 10)
+		}
+		num("evals", int64(r.Evals))
+		str("tag", r.Tag)
+		str("msg", r.Msg)
+		b = append(b, '}', '\n')
+	default:
+		b, _ = json.Marshal(r)
+		b = append(b, '\n')
+	}
+	syscall.Write(int(j.fd), b)
+}
+
+func appendJSONString(b []byte, s string) []byte {
+	const hex = "0123456789abcdef"
+	b = append(b, '"')
+	for i := 0; i < len(s); i++ {
+		c := s[i]
+		switch {
+		case c == '"' || c == '\\':
+			b = append(b, '\\', c)
+		case c < 0x20 || c >= 0x7f:
+			b = append(b, '\\', 'u', '0', '0', hex[c>>4], hex[c&15])
+		default:
+			b = append(b, c)
+		}
+	}
+	return append(b, '"')
 }
 
 // ---------------------------------------------------------------- guarded input buffers
@@ -147,40 +214,110 @@ type Runner struct {
 	ops map[uint64]*OpSpec
 
 	// per-property state
-	c06  *c06state
-	c13  map[string]string // (type, entry) -> first verdict
-	c16  []*sharedObj
-	ginp *guarded
+	c06 *c06state
+	c16 []*sharedObj
 
-	stats struct {
-		ops, evals, viol                      int
-		faultFired, faultReached              map[string]int
-		verdicts                              map[string]int
-		events                                map[string]int
-		firstUse                              []string
-		usedTypes                             map[string]bool
-		maxLive                               int
-		checkedExtents, sweeps                int
-		decOK, decErr, encOK, encErr, sizeOK  int
-		sizePanic, legacy, notes, crashesSafe int
+	c13idx   map[string]int // read-only during the run
+	c13first []string
+
+	ts    []*taskStats // per task: tasks must not share maps (the runtime's map code is race-instrumented)
+	stats *taskStats   // merged after the run
+}
+
+type taskStats struct {
+	ops, evals, viol                     int
+	faultFired, faultReached             map[string]int
+	verdicts                             map[string]int
+	events                               map[string]int
+	firstUse                             []string
+	usedTypes                            map[string]bool
+	warm                                 map[string]bool
+	ginp                                 *guarded
+	maxLive                              int
+	checkedExtents, sweeps               int
+	decOK, decErr, encOK, encErr, sizeOK int
+	sizePanic, legacy, notes             int
+}
+
+func newTaskStats() *taskStats {
+	return &taskStats{faultFired: map[string]int{}, faultReached: map[string]int{}, verdicts: map[string]int{}, events: map[string]int{},
+		usedTypes: map[string]bool{}, warm: map[string]bool{}}
+}
+
+func (a *taskStats) merge(b *taskStats) {
+	a.ops += b.ops
+	a.evals += b.evals
+	a.viol += b.viol
+	for k, v := range b.faultFired {
+		a.faultFired[k] += v
 	}
+	for k, v := range b.faultReached {
+		a.faultReached[k] += v
+	}
+	for k, v := range b.verdicts {
+		a.verdicts[k] += v
+	}
+	for k, v := range b.events {
+		a.events[k] += v
+	}
+	a.firstUse = append(a.firstUse, b.firstUse...)
+	if b.maxLive > a.maxLive {
+		a.maxLive = b.maxLive
+	}
+	a.checkedExtents += b.checkedExtents
+	a.sweeps += b.sweeps
+	a.decOK += b.decOK
+	a.decErr += b.decErr
+	a.encOK += b.encOK
+	a.encErr += b.encErr
+	a.sizeOK += b.sizeOK
+	a.sizePanic += b.sizePanic
+	a.legacy += b.legacy
+	a.notes += b.notes
 }
 
 func NewRunner(spec *RunSpec, c *model.Corpus) *Runner {
-	r := &Runner{Spec: spec, C: c, Bank: NewBank(spec.Prof, c), J: &journal{os.Stdout}, ops: map[uint64]*OpSpec{}}
-	r.stats.faultFired = map[string]int{}
-	r.stats.faultReached = map[string]int{}
-	r.stats.verdicts = map[string]int{}
-	r.stats.events = map[string]int{}
-	r.stats.usedTypes = map[string]bool{}
-	r.c13 = map[string]string{}
+	r := &Runner{Spec: spec, C: c, Bank: NewBank(spec.Prof, c), J: &journal{os.Stdout.Fd()}, ops: map[uint64]*OpSpec{}}
 	r.c06 = &c06state{}
+	r.stats = newTaskStats()
+	for t := 0; t < spec.Tasks; t++ {
+		r.ts = append(r.ts, newTaskStats())
+	}
+	// everything tasks look up in shared maps is resolved before the run starts
+	r.c13idx = map[string]int{}
+	for _, st := range spec.Hist {
+		if st.Ev == "" || st.Ev == "shared" {
+			op := r.op(st.Op)
+			for _, e := range []string{"size", "enc", "dec"} {
+				k := op.Type + "/" + e
+				if _, ok := r.c13idx[k]; !ok {
+					r.c13idx[k] = len(r.c13first)
+					r.c13first = append(r.c13first, "")
+				}
+			}
+		}
+	}
 	return r
 }
+
+func (r *Runner) guardedFor(task, n int) *guarded {
+	t := r.ts[task%len(r.ts)]
+	if t.ginp == nil || t.ginp.usable < n {
+		t.ginp = newGuarded(n + 4096)
+	}
+	return t.ginp
+}
+
+// st returns the statistics of the task executing step s.
+func (r *Runner) st(s *Step) *taskStats { return r.ts[s.Task%len(r.ts)] }
 
 func (r *Runner) op(id uint64) *OpSpec {
 	if o, ok := r.ops[id]; ok {
 		return o
+	}
+	if verifsim.Active() {
+		o := r.Bank.Op(id) // not pre-resolved (cannot happen for steps of the history): derive without caching
+		return &o
 	}
 	o := r.Bank.Op(id)
 	r.ops[id] = &o
@@ -188,12 +325,12 @@ func (r *Runner) op(id uint64) *OpSpec {
 }
 
 func (r *Runner) violation(prop, sig, msg string, st *Step) {
-	r.stats.viol++
+	r.st(st).viol++
 	r.J.put(&Rec{K: "V", Prop: prop, Sig: sig, Msg: msg, Slot: st.Slot, Task: st.Task, Op: st.Op})
 }
 
 func (r *Runner) note(msg string, st *Step) {
-	r.stats.notes++
+	r.st(st).notes++
 	r.J.put(&Rec{K: "N", Msg: msg, Slot: st.Slot, Op: st.Op})
 }
 
@@ -264,6 +401,12 @@ func (r *Runner) Run() {
 	}
 	total.Deadlock, total.NoProgress = res.Deadlock, res.NoProgress
 	res = total
+	for _, t := range r.ts {
+		r.stats.merge(t)
+	}
+	if len(r.stats.firstUse) > 64 {
+		r.stats.firstUse = r.stats.firstUse[:64]
+	}
 	if res.Deadlock != "" {
 		r.J.put(&Rec{K: "V", Prop: "C08", Sig: "C08/deadlock", Msg: res.Deadlock})
 		r.stats.viol++
@@ -294,7 +437,7 @@ func (r *Runner) Run() {
 func (r *Runner) step(st *Step) {
 	switch st.Ev {
 	case "gc":
-		r.stats.events["gc"]++
+		r.st(st).events["gc"]++
 		runtime.GC()
 		if st.Arg%2 == 1 {
 			runtime.GC()
@@ -302,30 +445,31 @@ func (r *Runner) step(st *Step) {
 		r.c06sweep(st, "gc")
 		return
 	case "flush":
-		r.stats.events["flush"]++
+		r.st(st).events["flush"]++
 		ssync.FlushPools()
 		return
 	case "scribble":
-		r.stats.events["scribble"]++
+		r.st(st).events["scribble"]++
 		r.c06scribble(st)
 		r.c06sweep(st, "scribble")
 		return
 	case "drop":
-		r.stats.events["drop"]++
+		r.st(st).events["drop"]++
 		r.c06drop(st)
 		r.c06sweep(st, "drop")
 		return
 	case "recheck":
-		r.stats.events["recheck"]++
+		r.st(st).events["recheck"]++
 		r.c06sweep(st, "recheck")
 		return
 	}
 	op := r.op(st.Op)
-	r.stats.ops++
-	if !r.stats.usedTypes[op.Type] {
-		r.stats.usedTypes[op.Type] = true
-		if len(r.stats.firstUse) < 64 {
-			r.stats.firstUse = append(r.stats.firstUse, op.Type)
+	ts := r.st(st)
+	ts.ops++
+	if !ts.usedTypes[op.Type] {
+		ts.usedTypes[op.Type] = true
+		if len(ts.firstUse) < 64 {
+			ts.firstUse = append(ts.firstUse, op.Type)
 		}
 	}
 	// decision streams are keyed by the slot, so that dropping other steps leaves this one's decisions unchanged
@@ -442,7 +586,7 @@ func callSize(arg interface{}) (n int, pcls, ptext string) {
 			pcls, ptext = classifyPanic(p)
 		}
 	}()
-	n = frugal.EncodedSize(arg)
+	verifsim.Visible(func() { n = frugal.EncodedSize(arg) })
 	return
 }
 
@@ -452,7 +596,7 @@ func callEnc(buf []byte, arg interface{}) (n int, err error, pcls, ptext string)
 			pcls, ptext = classifyPanic(p)
 		}
 	}()
-	n, err = frugal.EncodeObject(buf, nil, arg)
+	verifsim.Visible(func() { n, err = frugal.EncodeObject(buf, nil, arg) })
 	return
 }
 
@@ -462,7 +606,7 @@ func callDec(b []byte, dst interface{}) (n int, err error, pcls, ptext string) {
 			pcls, ptext = classifyPanic(p)
 		}
 	}()
-	n, err = frugal.DecodeObject(b, dst)
+	verifsim.Visible(func() { n, err = frugal.DecodeObject(b, dst) })
 	return
 }
 
@@ -475,11 +619,11 @@ func (r *Runner) execSize(op *OpSpec, st *Step) *Rec {
 	res := &Rec{N: n, Cls: "ok", Tag: "size/" + v.sd.Shape()}
 	if pc != "" {
 		res.Cls, res.Err = "panic", pc+": "+scrub(pt)
-		r.stats.sizePanic++
+		r.st(st).sizePanic++
 	} else {
-		r.stats.sizeOK++
+		r.st(st).sizeOK++
 	}
-	res.D = model.Digest([]byte(fmt.Sprintf("size n=%d cls=%s err=%s", n, res.Cls, res.Err)))
+	res.D = model.Digest([]byte("size n=" + strconv.Itoa(n) + " cls=" + res.Cls + " err=" + res.Err))
 	r.c13check(op, st, "size", res, nil, nil)
 	return res
 }
@@ -527,10 +671,10 @@ func (r *Runner) execEnc(op *OpSpec, st *Step) *Rec {
 		res.Cls, res.Err = "panic", pc+": "+scrub(pt)
 	case err != nil:
 		res.Cls, res.Err = "err", scrub(err.Error())
-		r.stats.encErr++
+		r.st(st).encErr++
 	default:
 		res.Cls = "ok"
-		r.stats.encOK++
+		r.st(st).encOK++
 		if n >= 0 && n <= ln {
 			out = a.buf()[:n]
 		}
@@ -546,7 +690,7 @@ func (r *Runner) execEnc(op *OpSpec, st *Step) *Rec {
 			prop := r.Spec.Prof
 			r.violation(prop, prop+"/encode-wrote-outside/"+where(msg), "EncodeObject on "+op.Type+": "+msg, st)
 		}
-		r.stats.evals++
+		r.st(st).evals++
 	}
 	canon := ""
 	if out != nil {
@@ -556,7 +700,7 @@ func (r *Runner) execEnc(op *OpSpec, st *Step) *Rec {
 			canon = "unparsable:" + model.Digest(out)
 		}
 	}
-	res.D = model.Digest([]byte(fmt.Sprintf("enc n=%d cls=%s err=%s out=%s", n, res.Cls, res.Err, canon)))
+	res.D = model.Digest([]byte("enc n=" + strconv.Itoa(n) + " cls=" + res.Cls + " err=" + res.Err + " out=" + canon))
 	r.c13check(op, st, "enc", res, a, nil)
 	r.c09encCheck(op, st, v, out, res)
 	r.c16repeat(op, st, v, arg, canon, res)
@@ -626,10 +770,7 @@ func (r *Runner) execDec(op *OpSpec, st *Step) *Rec {
 		if r.Spec.Prof == "C06" {
 			in = newGuarded(len(m.bytes)).place(m.bytes) // its own region: it must stay put while the object lives
 		} else {
-			if r.ginp == nil || r.ginp.usable < len(m.bytes) {
-				r.ginp = newGuarded(len(m.bytes) + 4096)
-			}
-			in = r.ginp.place(m.bytes)
+			in = r.guardedFor(st.Task, len(m.bytes)).place(m.bytes)
 		}
 	}
 	res := r.decodeOnce(op, st, sd, m, in, dst)
@@ -648,6 +789,11 @@ func (r *Runner) decodeOnce(op *OpSpec, st *Step, sd *model.StructDef, m *messag
 		dstBefore = model.Digest(model.CanonValue(dst.Elem()))
 	}
 	if r.Spec.Prof == "C05" {
+		if ts := r.st(st); !ts.warm[sd.Name] {
+			// first use registers the type (and everything nested): that cost is per type, not per message
+			ts.warm[sd.Name] = true
+			callDec([]byte{0}, reflect.New(dst.Type().Elem()).Interface())
+		}
 		r.J.put(&Rec{K: "b", Slot: st.Slot, Op: st.Op, Msg: m.desc, N: len(in)}) // so that a dying child names the input in flight
 	}
 	a0, s0 := heapAllocs(), verifsim.Steps()
@@ -659,19 +805,19 @@ func (r *Runner) decodeOnce(op *OpSpec, st *Step, sd *model.StructDef, m *messag
 		res.Cls, res.Err = "panic", pc+": "+scrub(pt)
 	case err != nil:
 		res.Cls, res.Err = "err", scrub(err.Error())
-		r.stats.decErr++
+		r.st(st).decErr++
 	default:
 		res.Cls = "ok"
-		r.stats.decOK++
+		r.st(st).decOK++
 	}
 	if m.fault != "" && m.fault != "none" {
-		r.stats.faultFired[m.fault]++
+		r.st(st).faultFired[m.fault]++
 		if m.changed {
-			r.stats.faultReached[m.fault]++
+			r.st(st).faultReached[m.fault]++
 		}
 	}
 	canon := model.Digest(model.CanonValue(dst.Elem()))
-	res.D = model.Digest([]byte(fmt.Sprintf("dec n=%d cls=%s err=%s dst=%s", n, res.Cls, res.Err, canon)))
+	res.D = model.Digest([]byte("dec n=" + strconv.Itoa(n) + " cls=" + res.Cls + " err=" + res.Err + " dst=" + canon))
 	switch r.Spec.Prof {
 	case "C05":
 		r.c05check(op, st, sd, m, in, res, pc, pt)
@@ -680,7 +826,7 @@ func (r *Runner) decodeOnce(op *OpSpec, st *Step, sd *model.StructDef, m *messag
 	case "C09":
 		r.c09decCheck(op, st, sd, m, err, res)
 	case "C16":
-		r.stats.evals++
+		r.st(st).evals++
 		if model.Digest(in) != inSnap {
 			r.violation("C16", "C16/decode-modified-input", fmt.Sprintf("DecodeObject(%s) modified its input buffer (%s)", op.Type, m.desc), st)
 		}
@@ -697,8 +843,8 @@ type dstCheck struct{ before, after string }
 
 func (r *Runner) execLegacy(op *OpSpec, st *Step) *Rec {
 	res := &Rec{Cls: "ok", Tag: "legacy/" + op.Legacy}
-	r.stats.legacy++
-	r.stats.evals++
+	r.st(st).legacy++
+	r.st(st).evals++
 	fail := func(msg string) {
 		r.violation("C17", "C17/legacy/"+op.Legacy, msg, st)
 	}
@@ -817,11 +963,11 @@ func (r *Runner) execArg(op *OpSpec, st *Step) *Rec {
 	default:
 		res.Cls = "ok"
 	}
-	res.D = model.Digest([]byte(fmt.Sprintf("arg n=%d cls=%s err=%s", n, res.Cls, res.Err)))
+	res.D = model.Digest([]byte("arg n=" + strconv.Itoa(n) + " cls=" + res.Cls + " err=" + res.Err))
 	if r.Spec.Prof != "C13" {
 		return res
 	}
-	r.stats.evals++
+	r.st(st).evals++
 	sig := "C13/argument/" + op.Arg + "/" + entry
 	// a nil *T is a legal argument for the encoder (it denotes an empty struct); it must be rejected by the decoder only
 	if op.Arg == "nil-typed-ptr" && entry != "dec" {
@@ -856,7 +1002,7 @@ func (r *Runner) c13check(op *OpSpec, st *Step, entry string, res *Rec, a *outAr
 	if r.Spec.Prof != "C13" || sd == nil || !sd.Rejected() {
 		return
 	}
-	r.stats.evals++
+	r.st(st).evals++
 	class := sd.Invalid
 	if class == "" {
 		class = "contains-invalid"
@@ -889,10 +1035,13 @@ func (r *Runner) c13check(op *OpSpec, st *Step, entry string, res *Rec, a *outAr
 		}
 	}
 	// the same on every call
-	key := op.Type + "/" + entry
+	idx, ok := r.c13idx[op.Type+"/"+entry]
+	if !ok {
+		return
+	}
 	verdict := res.Cls + ":" + res.Err
-	if first, ok := r.c13[key]; !ok {
-		r.c13[key] = verdict
+	if first := r.c13first[idx]; first == "" {
+		r.c13first[idx] = verdict
 	} else if first != verdict {
 		r.violation("C13", sig+"/inconsistent", fmt.Sprintf("%s on %s: first call %q, later call %q", entry, op.Type, first, verdict), st)
 	}
